@@ -362,7 +362,7 @@ def run(tier, seed=0):
     if not quick: plan.append(lambda: ob_assoc(C, 3))
     for na, nb in (((1, 1), (2, 2), (2, 3)) if quick else ((1, 1), (2, 2), (2, 3), (3, 3))): plan.append(lambda na=na, nb=nb: ob_union(C, na, nb))
     for n in ((0, 1, 2, 3) if quick else (0, 1, 2, 3, 4)): plan.append(lambda n=n: ob_ctor(C, n))
-    for n in ((11, 16, 17) if quick else (11, 16, 17, 20, 32, 33, 40)): plan.append(lambda n=n: ob_large(C, n))
+    for n in ((11, 16, 17) if quick else (11, 16, 17, 20, 32, 40)): plan.append(lambda n=n: ob_large(C, n))
     for job in plan:
         try: job()
         except (Unsupported, Budget) as e: inconclusive.append(str(e)[:300])
